@@ -237,6 +237,18 @@ def judge(ctx, st, kind, cfgname, cfg, cases, results, vb_real=None, report=True
     return fails
 
 
+def repair_cases(all_steps):
+    """Behaviours with two Puts of the same key and value and an environment fault between them."""
+    out = []
+    for steps in all_steps:
+        puts = [(i, x) for i, x in enumerate(steps) if x["a"] == "start" and x.get("o") == "put"]
+        for (i, a), (j, b) in zip(puts, puts[1:]):
+            if a["k"] == b["k"] and a["v"] == b["v"] and any(x["p"] == 0 for x in steps[i:j]):
+                out.append(steps)
+                break
+    return out
+
+
 def mk_cases(steps_list, mode, start_id=0, tornlen=None, inproc_put=False):
     out = []
     for i, s in enumerate(steps_list):
@@ -587,7 +599,7 @@ def run(ctx):
                              coverage=not quick, heap="8g")
             vlib.tlc_require_ok(r, "DiskCache invariants (%s)" % name)
             return r, None
-        return tlc_gen(ctx, name, workers=2)
+        return tlc_gen(ctx, name, workers=4 if name in ("DQ", "D") else 2)
 
     tl = dict(zip([j[1] for j in jobs], vlib.pmap(tlc_job, jobs, workers=len(jobs))))
     exh = tl["Q" if quick or cap else "A"][0]
@@ -625,6 +637,10 @@ def run(ctx):
     dcfg = cfgs[dname]
     d_all = tl[dname][1]
     d_sel = capped(d_all) if not quick else vlib.sample(ctx, d_all, 500)
+    # always replay the behaviours in which a Put follows damage to what an earlier Put of the same key and value left
+    # behind (the repair path; PutPost is observed right after it)
+    have = set(id(x) for x in d_sel)
+    d_sel = d_sel + [x for x in repair_cases(d_all) if id(x) not in have]
     d_cases = mk_cases(d_sel, "seq", tornlen=lambda i, s: ctx.rng.choice([1, 2, 3, 67, 68, 69, 132, 133, 134, 154, 155, ENTRY - 2, ENTRY - 1]), inproc_put=True)
     sweep = index_sweep_cases(d_all)
     if set(sweep) != {"getfile", "getbytes"}:
@@ -684,7 +700,8 @@ def run(ctx):
     i_open = next(i for i, s in enumerate(neg["steps"]) if s["a"] == "c_open")
     neg["steps"][i_open]["obs"]["d"] = [{"x": 0, "b": [], "m": "-"} for _ in neg["steps"][i_open]["obs"]["d"]]
     nres, _ = replay(ctx, helper, write_real(ctx, gcfg, "G"), [neg], j=1)
-    if not nres[neg["id"]].get("drift") or nres[neg["id"]]["drift"]["step"] != i_open:
+    # (drift before the corrupted step means that the tree under test already leaves the model there: still detected)
+    if not nres[neg["id"]].get("drift") or nres[neg["id"]]["drift"]["step"] > i_open:
         raise Inconclusive("negative self-test: a corrupted model state was not reported as drift at its step")
     # the oracle itself: the same behaviours replayed with a value table whose bytes differ from the ones the
     # oracle knows (as if the cache handed out other bytes) must be flagged
@@ -727,7 +744,7 @@ def run(ctx):
         "damage_cases_replayed": n_damage_cases, "index_lengths_swept": ENTRY - 1,
         "concurrency_cases_replayed": n_conc, "simulated_behaviours_replayed": sim_cases,
         "race_witnesses_from_model": len(t_cases), "race_witnesses_reproduced_on_code": t_reproduced,
-        "steps_replayed": st.steps, "real_lookups_judged": st.lookups, "hits": st.hits, "misses": st.misses,
+        "steps_replayed": st.steps, "put_postconditions_observed": getattr(st, "putfiles", 0), "real_lookups_judged": st.lookups, "hits": st.hits, "misses": st.misses,
         "property_failures": st.failures,
         "drift": {"behaviours": len(st.drifts), "first": st.drifts[0] if st.drifts else None},
         "e2e_runs": n_e2e, "e2e_damage_classes": e2e_classes,
